@@ -10,10 +10,11 @@ from lib import zlit, zlist, zmat, coq_list
 
 IMPORTS = ("From Coq Require Import List ZArith QArith Bool.\nImport ListNotations.\n"
            "From CE Require Import Model.Harness Model.Gauss.\n")
-CASE_T = "list Z * list (list Z) * nat * nat * nat * bool * (Z * Z) * list (Z * Z * Z * Z)"
+CASE_T = "list Z * list (list Z) * nat * nat * nat * bool * bool * (Z * Z) * list (Z * Z * Z * Z)"
 ABS, REL = Fraction(1, 10 ** 8), Fraction(1, 10 ** 8)      # the property's tolerance
 COND_MAX = 1e6
-RES_BUDGET_S = 3.0
+RES_BUDGET_S = 2.0
+SEQ_BUDGET_S = 1.0
 
 
 def tol_of(v):
@@ -137,6 +138,13 @@ def res_cost_estimate(kx, ky, kz, N, bits):
     return 2.4e-5 * N * bits * L * L * (P + (kx + ky) ** 2)
 
 
+def seq_cost_estimate(kx, ky, kz, N, bits):
+    """rough vm_compute seconds of the sequential residual form (deeper Gram-Schmidt chains than the block form)"""
+    L = 1 + kz
+    P = L * (L - 1) / 2 + sum((L + j) + sum(L + j + i for i in range(kx)) + (L + j + kx) for j in range(ky))
+    return 8e-6 * N * bits * P * (L + kx + ky) ** 2
+
+
 # the property's literal float form: numpy lstsq residual covariances
 def lstsq_cmi(X, Y, Z):
     n = X.shape[0]
@@ -160,7 +168,7 @@ def partial_corr_form(X, Y, Z):
 # ------------------------------------------------------------------------------------------------------
 # generator: dyadic-grid samples  value[n, c] = ints[n, c] * 2^exps[c]  (exact in float64 and in Q)
 # ------------------------------------------------------------------------------------------------------
-def gen_sample(rng, kx, ky, kz, N, maxbits=15):
+def gen_sample(rng, kx, ky, kz, N, maxbits=15, zcols=()):
     dim = kx + ky + kz
     ncomp = int(rng.integers(1, 4))
     comp = rng.integers(0, ncomp, N)
@@ -184,6 +192,10 @@ def gen_sample(rng, kx, ky, kz, N, maxbits=15):
         for n in range(N):
             ints[n, c] = int(m[n]) + off
         exps.append(int(rng.integers(-20, 13)))
+    if zcols:       # conditioning columns on nearby binary scales, so that Z M stays exactly representable
+        ez = int(rng.integers(-20, 5))
+        for c in zcols:
+            exps[c] = ez + int(rng.integers(0, 9))
     return ints, exps
 
 
@@ -230,7 +242,7 @@ def run(chk):
     chk.assumptions += ["non-degenerate samples: N > dim + 1, condition number of the joint correlation matrix <= 1e6",
                         "sample values on a dyadic grid (every finite float is such a value; the grid keeps the Coq terms small)"]
     g = gaussian_conditional_mutual_information
-    n_cases = 120 if chk.tier == "quick" else 4000
+    n_cases = 120 if chk.tier == "quick" else 3000
     cases, pf, desc = [], [], []
     worst = 0.0
     t = 0
@@ -242,7 +254,7 @@ def run(chk):
         dim = kx + ky + kz
         N = int(rng.integers(max(6, dim + 2), 41))
         maxbits = int(rng.choice([8, 12, 15]))
-        ints, exps = gen_sample(rng, kx, ky, kz, N, maxbits)
+        ints, exps = gen_sample(rng, kx, ky, kz, N, maxbits, zcols=range(kx + ky, dim))
         F = to_float(ints, exps)
         cond = corr_cond(F)
         if not cond <= COND_MAX:
@@ -259,6 +271,8 @@ def run(chk):
             raise RuntimeError("harness self-check: Schur-complement form and residual-vector form differ in exact arithmetic")
         with_res = res_cost_estimate(kx, ky, kz, N, maxbits) <= RES_BUDGET_S
         chk.count("residual_form_in_coq.evaluated" if with_res else "residual_form_in_coq.skipped_too_slow")
+        with_seq = with_res and seq_cost_estimate(kx, ky, kz, N, maxbits) <= SEQ_BUDGET_S
+        chk.count("sequential_residual_form_in_coq.evaluated" if with_seq else "sequential_residual_form_in_coq.skipped_too_slow")
         X, Y, Z = split(F, kx, ky, kz)
         chk.count(f"cond.1e{int(math.floor(math.log10(max(cond, 1.0))))}")
         chk.count(f"kz.{kz}")
@@ -318,20 +332,26 @@ def run(chk):
             emin = min(exps[kx + ky:])
             if max(exps[kx + ky:]) - emin <= 30:
                 Zi = np.array([[int(ints[n, c]) << (exps[c] - emin) for c in iz] for n in range(N)], dtype=object)
-                for _ in range(6):
+                ZM = None
+                for _ in range(8):
                     M = rng.integers(-3, 4, (kz, kz))
-                    if abs(round(np.linalg.det(M))) >= 1 and np.linalg.cond(M) <= 30:
+                    if not (abs(round(np.linalg.det(M))) >= 1 and np.linalg.cond(M) <= 30):
+                        continue
+                    Zm = Zi.dot(M.astype(object))
+                    if max(abs(int(x)) for x in Zm.reshape(-1)) >= 2 ** 52:
+                        continue
+                    cand = np.array([[math.ldexp(float(int(x)), emin) for x in row] for row in Zm])
+                    if corr_cond(np.hstack([X, Y, cand])) <= COND_MAX:
+                        ZM = cand
                         break
+                if ZM is None:
+                    chk.count("z_mixing.skipped_no_well_conditioned_mixing_found")
                 else:
-                    M = np.eye(kz, dtype=int)
-                Zm = Zi.dot(M.astype(object))
-                if max(abs(int(x)) for x in Zm.reshape(-1)) < 2 ** 52:
-                    ZM = np.array([[math.ldexp(float(int(x)), emin) for x in row] for row in Zm])
-                    if corr_cond(np.hstack([X, Y, ZM])) <= COND_MAX:
-                        vm = float(g(X, Y, ZM))
-                        chk.count("z_mixing.checked")
-                        if not abs(vm - v) <= 2 * tol:
-                            fail = f"not invariant under invertible mixing Z -> Z M (M = {M.tolist()}): {v!r} became {vm!r}"
+                    vm = float(g(X, Y, ZM))
+                    chk.count("z_mixing.checked")
+                    chk.count("z_mixing.identity_or_pure_scaling" if np.count_nonzero(M - np.diag(np.diag(M))) == 0 else "z_mixing.genuine_mixing")
+                    if not abs(vm - v) <= 2 * tol:
+                        fail = f"not invariant under invertible mixing Z -> Z M (M = {M.tolist()}): {v!r} became {vm!r}"
             if fail is None:
                 i1 = float(g(X, np.hstack([Y, Z]), None))
                 i2 = float(g(X, Z, None))
@@ -346,7 +366,7 @@ def run(chk):
                 vlist.append(f"({zlit(fv.numerator)}, {zlit(fv.denominator)}, {zlit(ft.numerator)}, {zlit(ft.denominator)})")
             else:
                 vlist.append("(0, 1, (-1), 1)")
-        cases.append(f"({zlist(exps)}, {zmat(ints.tolist())}, {kx}%nat, {ky}%nat, {kz}%nat, {lib.coq_bool(with_res)}, "
+        cases.append(f"({zlist(exps)}, {zmat(ints.tolist())}, {kx}%nat, {ky}%nat, {kz}%nat, {lib.coq_bool(with_res)}, {lib.coq_bool(with_seq)}, "
                      f"({zlit(q.numerator)}, {zlit(q.denominator)}), {coq_list(vlist)})%Z")
         desc.append({"k_x": kx, "k_y": ky, "k_z": kz, "N": N, "condition_number": cond, "column_exponents": exps,
                      "integer_rows_XYZ": [[int(x) for x in row] for row in ints.tolist()],
